@@ -348,6 +348,12 @@ func peel(v ssa.Value) ssa.Value {
 				continue
 			}
 			return v
+		case *ssa.UnOp:
+			if rv := resolveLocal(x); rv != ssa.Value(x) {
+				v = rv
+				continue
+			}
+			return v
 		default:
 			return v
 		}
@@ -513,7 +519,13 @@ func origins(v ssa.Value) []Atom {
 			if x.Op == token.MUL {
 				switch a := x.X.(type) {
 				case *ssa.Alloc:
-					// local variable: union of all stores
+					// local variable: the stores that reach this load (flow-sensitive); fall back to all stores
+					if vals, ok := reachDefs(a, x); ok && len(vals) > 0 {
+						for _, sv := range vals {
+							walk(sv)
+						}
+						break
+					}
 					n := 0
 					for _, ref := range *a.Referrers() {
 						if st, ok := ref.(*ssa.Store); ok && st.Addr == a {
@@ -615,6 +627,14 @@ func dependsOn(v ssa.Value, isTarget func(ssa.Value) bool) bool {
 		case *ssa.UnOp:
 			if x.Op == token.MUL {
 				if a, ok := x.X.(*ssa.Alloc); ok {
+					if vals, ok := reachDefs(a, x); ok && len(vals) > 0 {
+						for _, sv := range vals {
+							if walk(sv) {
+								return true
+							}
+						}
+						return false
+					}
 					for _, ref := range *a.Referrers() {
 						if st, ok := ref.(*ssa.Store); ok && st.Addr == a {
 							if walk(st.Val) {
@@ -1039,20 +1059,73 @@ func retResult(ret *ssa.Return, idx int) ssa.Value {
 	if idx >= len(ret.Results) {
 		return nil
 	}
-	v := ret.Results[idx]
-	ld, ok := v.(*ssa.UnOp)
-	if !ok || ld.Op != token.MUL {
-		return v
-	}
-	a, ok := ld.X.(*ssa.Alloc)
-	if !ok {
-		return v
-	}
-	b := ret.Block()
-	for k := len(b.Instrs) - 1; k >= 0; k-- {
-		if st, ok := b.Instrs[k].(*ssa.Store); ok && st.Addr == a {
-			return st.Val
+	return resolveLocal(ret.Results[idx])
+}
+
+// reachDefs returns the values of the stores to local alloc a that reach instruction at (flow-sensitive,
+// ignoring writes through closures). ok=false if some path reaches the function entry without a store.
+func reachDefs(a *ssa.Alloc, at ssa.Instruction) (vals []ssa.Value, ok bool) {
+	ok = true
+	seenB := map[*ssa.BasicBlock]bool{}
+	seenV := map[ssa.Value]bool{}
+	var fromEnd func(b *ssa.BasicBlock)
+	scan := func(b *ssa.BasicBlock, from int) bool {
+		for k := from; k >= 0; k-- {
+			if st, isS := b.Instrs[k].(*ssa.Store); isS && st.Addr == ssa.Value(a) {
+				if !seenV[st.Val] {
+					seenV[st.Val] = true
+					vals = append(vals, st.Val)
+				}
+				return true
+			}
 		}
+		return false
+	}
+	fromEnd = func(b *ssa.BasicBlock) {
+		if seenB[b] {
+			return
+		}
+		seenB[b] = true
+		if scan(b, len(b.Instrs)-1) {
+			return
+		}
+		if len(b.Preds) == 0 {
+			ok = false
+			return
+		}
+		for _, p := range b.Preds {
+			fromEnd(p)
+		}
+	}
+	b := at.Block()
+	if scan(b, instrIndex(at)-1) {
+		return
+	}
+	if len(b.Preds) == 0 {
+		return nil, false
+	}
+	for _, p := range b.Preds {
+		fromEnd(p)
+	}
+	return
+}
+
+// resolveLocal looks through loads of local allocs that have exactly one reaching definition.
+func resolveLocal(v ssa.Value) ssa.Value {
+	for depth := 0; depth < 16; depth++ {
+		ld, ok := v.(*ssa.UnOp)
+		if !ok || ld.Op != token.MUL {
+			return v
+		}
+		a, ok := ld.X.(*ssa.Alloc)
+		if !ok {
+			return v
+		}
+		vals, ok := reachDefs(a, ld)
+		if !ok || len(vals) != 1 {
+			return v
+		}
+		v = vals[0]
 	}
 	return v
 }
